@@ -85,9 +85,9 @@ theorem string_reads_back (d : Char) (w r : List Char) (hd : d.toNat = 34 ∨ d.
 example : next "`json:\"id\"` // c".toList = .tok (.tok .RAW) "`json:\"id\"`".toList " // c".toList := by decide
 example : next "\"a // b\"x".toList = .tok (.tok .STRING) "\"a // b\"".toList ['x'] := by decide
 
-/-- THE SCANNER READS BACK A WRITTEN TOKEN STREAM (partial: blanks as the only separators): tokens that are each read
+/-- THE SCANNER READS BACK A WRITTEN TOKEN STREAM (the special case of `scanner_reads_back_layout` with blanks as the only separators): tokens that are each read
 back in front of a blank or the end are read back as a stream - in order, nothing lost, nothing invented -/
-theorem scanner_reads_back_stream_partial (ts : List (RK × List Char)) (h : ∀ t ∈ ts, Reads t.1 t.2) :
+theorem scanner_reads_back_stream (ts : List (RK × List Char)) (h : ∀ t ∈ ts, Reads t.1 t.2) :
     scanAll (render ts) = .ok (ts.map fun t => { k := t.1, text := t.2, line := 1 }) :=
   scan_render ts h
 
@@ -107,7 +107,7 @@ theorem reads_ident (c : Char) (w : List Char) (hc : isIdL c = true) (hw : ∀ x
 
 example : scanAll (render [(.tok .IDENT, "type".toList), (.tok .IDENT, "User".toList)])
     = .ok [⟨.tok .IDENT, "type".toList, 1⟩, ⟨.tok .IDENT, "User".toList, 1⟩] :=
-  scanner_reads_back_stream_partial _ (by
+  scanner_reads_back_stream _ (by
     intro t ht
     simp at ht
     rcases ht with rfl | rfl
